@@ -176,9 +176,23 @@ Definition untok_pairs (t : bytes) : option (list pair) :=
 Definition effective_redirect (default override : option bytes) : option bytes :=
   match override with Some o => Some o | None => default end.
 
+(* the scope field is a PLAN of builder calls: s:x<hex> = add_scope, m:<list> = add_scopes (possibly
+   empty), joined by '|'; the builders append, so the request's scope list is the concatenation *)
+Definition parse_scope_op (t : bytes) : option (list bytes) :=
+  match t with
+  | "s"%char :: ":"%char :: r => option_map (fun s => [s]) (untok_bytes r)
+  | "m"%char :: ":"%char :: r => untok_list r
+  | _ => None
+  end.
+Definition parse_scope_plan (t : bytes) : option (list bytes) :=
+  match t with
+  | ["."%char] => Some []
+  | _ => option_map (@concat bytes) (sequence_opt (map parse_scope_op (split_on "|"%char t)))
+  end.
+
 Definition parse_kind (kind a1 a2 a3 scopes : bytes) (default_redirect : option bytes)
   : option req_kind :=
-  match untok_list scopes with
+  match parse_scope_plan scopes with
   | None => None
   | Some sc =>
       if is_kw "code" kind then
